@@ -182,7 +182,9 @@ class PmapEngine(Engine):
                'raise_at': r.choice([None, None, None, r.randrange(n)]) if n else None,
                'values': r.choice(['distinct', 'distinct', 'equal', 'unorderable']),
                'total': r.choice([None, None, n]),
-               'order': [r.randrange(6) for _ in range(n + 2)]}
+               'order': [r.randrange(6) for _ in range(n + 2)],
+               # a second, ungated call of the other implementation in the same thread afterwards (event-loop hygiene between calls)
+               'then': r.choice([None, None, 'iter', 'threading']) }
         if r.random() < 0.25:
             scn['order'] = [5] * (n + 2)    # always the newest in flight: later elements finish first
         return scn
@@ -250,6 +252,16 @@ class PmapEngine(Engine):
             else:
                 r = ctx['tci'].parallel_map(f, inp, threads=T)
             res['result'] = _canon(r)
+            if scn.get('then'):
+                try:
+                    xs2 = [10, 11, 12]
+                    if scn['then'] == 'iter':
+                        r2 = ctx['tci'].parallel_map(lambda x: x + 1, xs2, threads=2)
+                    else:
+                        r2 = ctx['tct'].parallel_map(lambda x: x + 1, xs2, threads=2, use_tqdm=False, chunksize=2)
+                    res['then'] = _canon(r2)
+                except Exception as e:
+                    res['then'] = ['error', type(e).__name__, str(e)[:120]]
         except Boom as e:
             res['error'] = ['Boom', str(e)]
         except Exception as e:
@@ -319,6 +331,8 @@ class PmapEngine(Engine):
                 if calls.get(x, 0) > 1:
                     d('I-once', f'f called {calls.get(x, 0)} times for element {x}', calls=obs['calls'])
                     break
+        if 'then' in obs and obs['then'] != [11, 12, 13]:
+            d('I-second-call', 'a later parallel_map call in the same thread does not equal map', got=obs['then'], first=scn['impl'], second=scn.get('then'))
         if any(x not in range(n) for x in calls):
             d('I-once', 'f called with something that is not an element', calls=obs['calls'])
         if obs['chunked'] != ref_chunks(xs, scn['chunksize']):
